@@ -211,6 +211,53 @@ func worker(raw json.RawMessage) (json.RawMessage, error) {
 		}
 	}
 	switch j.Kind {
+	case "dup":
+		// a list that names one server twice is the same *set*: the owner is the
+		// owner over the set, on the first call and on every later call with the
+		// same (long-lived) list, and the owner is always a member of the set
+		S := subset(j.Pool, j.Mask)
+		set := append([]string{}, S...)
+		sort.Strings(set)
+		member := map[string]bool{}
+		for _, x := range set {
+			member[x] = true
+		}
+		ref := make([]string, len(keys))
+		for i, k := range keys {
+			ref[i] = cluster.RendezvousHash(k, set, 1)[0]
+		}
+		for d := range S {
+			for _, where := range []string{"front", "back", "adjacent"} {
+				var list []string
+				switch where {
+				case "front":
+					list = append(append([]string{S[d]}, S...))
+				case "back":
+					list = append(append([]string{}, S...), S[d])
+				default:
+					list = append(append(append([]string{}, S[:d+1]...), S[d]), S[d+1:]...)
+				}
+				given := append([]string{}, list...)
+				// the same slice is used for every key, as a node uses its configured list
+				for round := 1; round <= 2; round++ {
+					for i, k := range keys {
+						r := cluster.RendezvousHash(k, list, 1)
+						res.Evals++
+						if len(r) != 1 || !member[r[0]] {
+							addV("owner-not-in-server-set", fmt.Sprintf("key %q (round %d over the same list): owner %q is not a member of %v (list as configured %v, list now %v)", k, round, r, set, given, list))
+							return json.Marshal(res)
+						}
+						if r[0] != ref[i] {
+							addV("duplicate-entry-changes-owner", fmt.Sprintf("key %q (round %d over the same list): list %v gives owner %q, the set %v gives %q", k, round, given, r[0], set, ref[i]))
+							return json.Marshal(res)
+						}
+					}
+				}
+				res.Nontriv++
+			}
+		}
+		res.Outcomes = append(res.Outcomes, fmt.Sprint("dup", set))
+		res.Sample = map[string]any{"kind": "dup", "servers": set, "keys": len(keys)}
 	case "perm", "bigperm":
 		S := subset(j.Pool, j.Mask)
 		n := len(S)
@@ -341,7 +388,7 @@ func worker(raw json.RawMessage) (json.RawMessage, error) {
 }
 
 func master(cfg *harness.Config, rep *harness.Report) {
-	rep.Rule = "two name pools (16 short names as in the shipped configs; 8 long names of 44..70 characters that differ only in their last character or only early on). perm: every non-empty subset of the first 7 pool names x all |S|! orderings x all keys x topK in {1,|S|} must give the answer of the sorted ordering; bigperm: prefixes of the 16-name pool of size 8..16 x {sorted, reversed, rotations, adjacent transpositions}; disrupt: server sets (prefix chains of 16 rotations of the pool, all sets of size <=4 of the first 8 names) x every server not in the set added at front and back x all keys: owner changes only to the added server. non-trivial = orderings different from the sorted one / additions that moved at least one key"
+	rep.Rule = "two name pools (16 short names as in the shipped configs; 8 long names of 44..70 characters that differ only in their last character or only early on). perm: every non-empty subset of the first 7 pool names x all |S|! orderings x all keys x topK in {1,|S|} must give the answer of the sorted ordering; bigperm: prefixes of the 16-name pool of size 8..16 x {sorted, reversed, rotations, adjacent transpositions}; dup: every set of <= 4 of the first 8 names with each member listed twice (front, back, adjacent), the same list used for two rounds over all keys: owner = owner over the set, always a member. disrupt: server sets (prefix chains of 16 rotations of the pool, all sets of size <=4 of the first 8 names) x every server not in the set added at front and back x all keys: owner changes only to the added server. non-trivial = orderings different from the sorted one / additions that moved at least one key"
 	rep.Assumptions = []string{"keys: all strings of length 1..4 over {a,b,1,:}, hand-picked user ids, long user ids (31..1000 characters, pairs differing in the last character), deterministic uuid stream; not all strings", "xxhash itself is trusted only through the behaviour observed here"}
 	var jobs []json.RawMessage
 	add := func(j job) {
@@ -385,6 +432,12 @@ func master(cfg *harness.Config, rep *harness.Report) {
 			if bits.OnesCount32(m) <= 4 && !seen[m] {
 				seen[m] = true
 				add(job{Kind: "disrupt", Mask: m, NKeys: nk})
+			}
+		}
+		// lists that name a server twice (sets of <= 4 of the first 8 names, every member duplicated at the front / back / next to itself), each list used twice for all keys
+		for m := uint32(1); m < 1<<8; m++ {
+			if bits.OnesCount32(m) <= 4 {
+				add(job{Kind: "dup", Mask: m, NKeys: permKeys})
 			}
 		}
 		// the long-name pool: all subsets, all orderings (<= 6 names; sorted/reversed/rotations/transpositions above), single additions for sets of <= 4
